@@ -7,11 +7,12 @@ from concurrent.futures import ProcessPoolExecutor
 from lib import common, play, stories
 
 LEVEL = "proof"
-THEOREM_MODULES = ["Proofs.C16"]
+THEOREM_MODULES = ["Proofs.C16", "Proofs.C16Frame"]
 REQUIRED_THEOREMS = [
     "Ink.C16.complete_restores_output", "Ink.C16.complete_eval_stack", "Ink.C16.evalLoop_done",
     "Ink.C16.evalLoop_step", "Ink.C16.eval_rejected_unchanged",
-]
+    # frame property of the operations a step is made of: nothing below the evaluation frame is touched (partial: not yet lifted to the whole step / loop; LIST_RANDOM missing)
+    "Ink.C16F.T_nextContent", "Ink.C16F.T_popTail", "Ink.C16F.T_processChoice", "Ink.C16F.T_callExternalFunction", "Ink.C16F.T_plfc_divert", "Ink.C16F.T_plfc_cmd_partial", "Ink.C16F.T_performLogicAndFlowControl_partial", "Ink.C16F.good_after_push"]
 RULE = ("a case = one story with pure value / text functions x one history with host evaluations injected at random "
         "boundaries (mid-paragraph, at choice points, at the end, in a named flow), compared in lockstep with the "
         "uninjected history; non-trivial when at least one evaluation returned text or a value; distinct by story + script")
